@@ -823,8 +823,9 @@ def build_cases(gen, rng, total_games, with_out_of_domain):
             if fam == "all_wins":
                 nk = rng.choice(["w", "b"])
                 result = "1-0" if nk == "w" else "0-1"
-            if fam == "mixed" and rng.random() < 0.04:
-                result = "*"      # skipped by analyse_pgn
+            if fam == "mixed" and rng.random() < 0.08:
+                # skipped by analyse_pgn: anything that is not exactly one of the three scored results (fragments of them included)
+                result = rng.choice(["*", "*", "1/2", "1-0 ", "0-1/2", "1-00-1", "1", "-", "1/2-1/2 ", "0-11/2"])
             g["white"], g["black"] = names(nk)
             g["result"] = result
             games.append(g)
